@@ -315,17 +315,20 @@ Definition mk_sfsc (ini : list Q) (A : list (list Q)) (O : list (list (list (lis
        (fun ag a o => map (fun n' => Qred (vdot ag (map (fun n => nth n' (nth o (nth a (nth n O []) []) []) 0) (seq 0 nN))))
                           (seq 0 nN)).
 
-(* printable forms *)
-Definition step_out (x : step) := (st_s x, st_a x, st_ns x, Qred (st_r x)).
+(* printable forms (Q values as explicit numerator/denominator: Coq prints some Q literals in
+   decimal/hexadecimal notation otherwise) *)
+Inductive qo : Type := QO (n : Z) (d : positive).
+Definition qo_of (x : Q) : qo := let y := Qred x in QO (Qnum y) (Qden y).
+Definition step_out (x : step) := (st_s x, st_a x, st_ns x, qo_of (st_r x)).
 Definition run_out (r : list step * nat * stream) (st : stream) :=
   let '(tr, fin, rest) := r in (map step_out tr, fin, (length st - length rest)%nat).
-Definition pstep_out {AG} (x : pstep AG) :=
-  (ps_s x, ps_ag x, ps_a x, ps_ns x, Qred (ps_r x), ps_o x, ps_nag x).
-Definition prun_out {AG} (r : list (pstep AG) * (nat * AG) * stream * stream) (gst st : stream) :=
+Definition pstep_out {AG B} (agout : AG -> B) (x : pstep AG) :=
+  (ps_s x, agout (ps_ag x), ps_a x, ps_ns x, qo_of (ps_r x), ps_o x, agout (ps_nag x)).
+Definition prun_out {AG B} (agout : AG -> B) (r : list (pstep AG) * (nat * AG) * stream * stream) (gst st : stream) :=
   let '(tr, fin, rest, grest) := r in
-  (map pstep_out tr, fin, (length st - length rest)%nat, (length gst - length grest)%nat).
+  (map (pstep_out agout) tr, (fst fin, agout (snd fin)), (length st - length rest)%nat, (length gst - length grest)%nat).
 Definition mc_out (r : mc_result) :=
-  (map (fun kv => (fst kv, Qred (snd kv))) (mc_state_value r),
-   map (fun kv => (fst kv, Qred (snd kv))) (mc_action_value r),
-   Qred (mc_initial_value r),
-   map (fun kv => (fst kv, Qred (snd kv))) (mc_occupancy r)).
+  (map (fun kv => (fst kv, qo_of (snd kv))) (mc_state_value r),
+   map (fun kv => (fst kv, qo_of (snd kv))) (mc_action_value r),
+   qo_of (mc_initial_value r),
+   map (fun kv => (fst kv, qo_of (snd kv))) (mc_occupancy r)).
